@@ -165,7 +165,19 @@ struct ReaderCfg { int n; bool delta[3]; };
 //   orphan: (sync gauge build only) no history: every Record overload on a gauge that was created from a
 //          meter whose MeterProvider is gone
 enum ReaderSet { ALL14 = 0, REP8 = 1, REP6 = 2, TWO5 = 3 };
-struct Part { int depth; bool rich; ReaderSet readers; bool both_starts; bool slim; bool ties; bool sec; bool orphan; };
+struct Part { int depth; bool rich; ReaderSet readers; bool both_starts; bool slim; bool ties; bool sec; bool orphan; bool view; };
+
+// Parts with `view`: the instrument is selected (by type and exact name) by a view that names the instrument type's own
+// aggregation EXPLICITLY - AggregationType::kSum for (observable) counters and up-down counters, kLastValue for gauges -
+// instead of kDefault. The statement does not depend on how the aggregation was chosen, so model and oracle are the same;
+// what changes is the code path (DefaultAggregation::CreateAggregation(type, descriptor, config) instead of the
+// per-instrument default).
+void add_explicit_view(sdkm::MeterProvider &provider, sdkm::InstrumentType itype, const char *name, bool last_value) {
+  std::unique_ptr<sdkm::InstrumentSelector> is(new sdkm::InstrumentSelector(itype, name, ""));
+  std::unique_ptr<sdkm::MeterSelector> ms(new sdkm::MeterSelector("m", "", ""));
+  std::unique_ptr<sdkm::View> v(new sdkm::View("", "", "", last_value ? sdkm::AggregationType::kLastValue : sdkm::AggregationType::kSum));
+  provider.AddView(std::move(is), std::move(ms), std::move(v));
+}
 std::vector<Part> g_parts;
 std::vector<ReaderCfg> g_reader_sets[4];
 
@@ -311,6 +323,7 @@ void run_observable(vf::Ctx &c) {
   const sdkm::InstrumentType itype = kind == O_COUNTER ? sdkm::InstrumentType::kObservableCounter
                                      : kind == O_UPDOWN ? sdkm::InstrumentType::kObservableUpDownCounter
                                                         : sdkm::InstrumentType::kObservableGauge;
+  if (P.view) add_explicit_view(provider, itype, "o", kind == O_GAUGE);
   std::vector<std::shared_ptr<PullReader>> readers;
   for (int r = 0; r < R; ++r) {
     readers.push_back(std::make_shared<PullReader>(RC.delta[r], itype, sec ? sdkm::InstrumentType::kObservableGauge : itype));
@@ -353,7 +366,7 @@ void run_observable(vf::Ctx &c) {
   int64_t last_total[NATTR] = {0, 0, 0, 0};           // most recent observation per attribute set (any collection)
   int64_t given[3][NATTR] = {{0, 0, 0, 0}, {0, 0, 0, 0}, {0, 0, 0, 0}};  // delta readers: sum of what the reader received so far
 
-  std::string cfgs = vf::sfmt("%s%s<%s> readers=", P.ties ? "clock-ties " : "", kOKindName[kind], is_double ? "double" : "int64");
+  std::string cfgs = vf::sfmt("%s%s%s<%s> readers=", P.ties ? "clock-ties " : "", P.view ? "explicit-aggregation-view " : "", kOKindName[kind], is_double ? "double" : "int64");
   for (int r = 0; r < R; ++r) cfgs += RC.delta[r] ? 'D' : 'C';
   std::string hist, outlog;
   if (sec) {
@@ -645,6 +658,7 @@ void run_syncgauge(vf::Ctx &c) {
   const int R = RC.n;
   c.stage("setup");
   sdkm::MeterProvider provider(std::unique_ptr<sdkm::ViewRegistry>(new sdkm::ViewRegistry()), opentelemetry::sdk::resource::Resource::GetEmpty());
+  if (P.view) add_explicit_view(provider, sdkm::InstrumentType::kGauge, "g", true);
   std::vector<std::shared_ptr<PullReader>> readers;
   for (int r = 0; r < R; ++r) {
     readers.push_back(std::make_shared<PullReader>(RC.delta[r], sdkm::InstrumentType::kGauge, sdkm::InstrumentType::kGauge));
@@ -663,7 +677,7 @@ void run_syncgauge(vf::Ctx &c) {
   bool ever[NATTR] = {false, false, false, false};
   int64_t last[NATTR] = {0, 0, 0, 0};
   bool fresh[3][NATTR] = {};  // recorded since this reader's previous collection
-  std::string cfgs = vf::sfmt("%sGauge<%s> readers=", P.ties ? "clock-ties " : "", is_double ? "double" : "int64");
+  std::string cfgs = vf::sfmt("%s%sGauge<%s> readers=", P.ties ? "clock-ties " : "", P.view ? "explicit-aggregation-view " : "", is_double ? "double" : "int64");
   for (int r = 0; r < R; ++r) cfgs += RC.delta[r] ? 'D' : 'C';
   std::string hist, outlog;
   auto real_state = [&](vf::H128 &h) {
@@ -755,22 +769,24 @@ void setup(vf::Options &o) {
   g_reader_sets[REP8] = {{1, {D}}, {1, {C}}, {2, {D, D}}, {2, {D, C}}, {2, {C, C}}, {3, {D, D, C}}, {3, {D, C, C}}, {3, {C, D, D}}};
   g_reader_sets[REP6] = {{1, {D}}, {1, {C}}, {2, {D, D}}, {2, {D, C}}, {3, {D, D, C}}, {3, {D, C, C}}};
   g_reader_sets[TWO5] = {{1, {D}}, {1, {C}}, {2, {D, D}}, {2, {D, C}}, {2, {C, C}}};
-  //                 depth rich  readers both   slim   ties   sec    orphan
+  //                 depth rich  readers both   slim   ties   sec    orphan view
 #if OPENTELEMETRY_ABI_VERSION_NO >= 2
   if (o.thorough)
     g_parts = {{5, false, ALL14, false, false, false, false, false}, {6, false, TWO5, false, false, false, false, false}, {5, false, REP6, false, false, true, false, false},
-               {1, false, TWO5, false, false, false, false, true}};
-  else g_parts = {{4, false, REP6, false, false, false, false, false}, {4, false, TWO5, false, false, true, false, false}, {1, false, TWO5, false, false, false, false, true}};
+               {1, false, TWO5, false, false, false, false, true}, {5, false, TWO5, false, false, false, false, false, true}};
+  else g_parts = {{4, false, REP6, false, false, false, false, false}, {4, false, TWO5, false, false, true, false, false}, {1, false, TWO5, false, false, false, false, true},
+                  {3, false, TWO5, false, false, false, false, false, true}};
 #else
   if (o.thorough)
     g_parts = {{5, true, ALL14, true, false, false, false, false}, {6, false, REP6, false, false, false, false, false}, {7, false, TWO5, false, true, false, false, false},
-               {5, false, REP6, false, false, true, false, false}, {6, false, REP6, false, false, false, true, false}};
-  else g_parts = {{5, false, REP6, false, false, false, false, false}, {4, false, TWO5, false, false, true, false, false}, {4, false, TWO5, false, false, false, true, false}};
+               {5, false, REP6, false, false, true, false, false}, {6, false, REP6, false, false, false, true, false}, {6, false, TWO5, false, false, false, false, false, true}};
+  else g_parts = {{5, false, REP6, false, false, false, false, false}, {4, false, TWO5, false, false, true, false, false}, {4, false, TWO5, false, false, false, true, false},
+                  {4, false, TWO5, false, false, false, false, false, true}};
 #endif
   std::string d = o.get("depth");
   if (!d.empty())
     g_parts = {{atoi(d.c_str()), o.get("rich") == "1", (ReaderSet)atoi(o.get("readers", "1").c_str()), o.get("bothstarts") == "1", o.get("slim") == "1", o.get("ties") == "1",
-                o.get("sec") == "1", o.get("orphan") == "1"}};
+                o.get("sec") == "1", o.get("orphan") == "1", o.get("view") == "1"}};
 }
 
 void run(vf::Ctx &c) {
